@@ -42,6 +42,43 @@ def _candidates(prog, mi, call, scope_cls):
     return []
 
 
+# positional parameter order of a few library functions the package calls (numpy / numpy.linalg as documented); only used to move a
+# keyword that continues the positional prefix, e.g. LA.norm(x, ord=p) -> LA.norm(x, p)
+EXTERNAL_SIGNATURES = {
+    "norm": ["x", "ord", "axis", "keepdims"],
+    "append": ["arr", "values", "axis"],
+    "delete": ["arr", "obj", "axis"],
+    "amin": ["a", "axis"], "amax": ["a", "axis"], "sum": ["a", "axis"], "prod": ["a", "axis"],
+    "reshape": ["a", "newshape"],
+    "linspace": ["start", "stop", "num"],
+    "where": ["condition", "x", "y"],
+    "inner": ["a", "b"], "dot": ["a", "b"], "outer": ["a", "b"],
+    "argsort": ["a", "axis"],
+}
+EXTERNAL_ROOTS = {"np", "numpy", "LA", "linalg"}
+
+
+def _rewrite_external(call):
+    f = call.func
+    if not (isinstance(f, ast.Attribute) and f.attr in EXTERNAL_SIGNATURES):
+        return 0
+    root = f.value
+    while isinstance(root, ast.Attribute):
+        root = root.value
+    if not (isinstance(root, ast.Name) and root.id in EXTERNAL_ROOTS):
+        return 0
+    names = EXTERNAL_SIGNATURES[f.attr]
+    moved = 0
+    while len(call.args) < len(names):
+        kw = [x for x in call.keywords if x.arg == names[len(call.args)]]
+        if len(kw) != 1:
+            break
+        call.keywords.remove(kw[0])
+        call.args.append(kw[0].value)
+        moved += 1
+    return moved
+
+
 def _rewrite(call, cands):
     sigs = [_positional_params(fi, drop) for fi, drop in cands]
     moved = 0
@@ -84,6 +121,8 @@ def normalise_call_arguments(prog):
                     cands = _candidates(prog, mi, ch, scope_cls)
                     if cands:
                         total += _rewrite(ch, cands)
+                    else:
+                        total += _rewrite_external(ch)
                 walk(ch, sc)
         walk(mi.tree, None)
     return total
